@@ -142,6 +142,7 @@ func props() map[string]Prop {
 			ID: "C18", Level: "exploration",
 			Units: []Unit{
 				{Name: "fsbucket", Module: "godev", Pkg: "internal/storage", Harness: "godev_storage", Run: "^TestVerifC18$", Timeout: 20 * time.Minute},
+				{Name: "services", Module: "godev", Pkg: "cmd/telemetrygodev", Harness: "godev_server", Run: "^TestVerifC18Services$", Timeout: 20 * time.Minute},
 			},
 			Assume: []string{"object names are ordinary slash-separated components (no '.', '..' or empty components) and no name is a directory-prefix of another", "the GCS backend needs network credentials and is not exercised"},
 		},
